@@ -487,7 +487,7 @@ pub fn sym_cone_battery(
     let n = s.len();
     let mut out = SymBattery::default();
     macro_rules! run {
-        ($c:expr) => {{
+        ($c:expr, $div:expr) => {{
             let c = $c;
             out.scaled_ok = c.update_scaling(s, z, 1.0, ScalingStrategy::PrimalDual);
             let mut v = |f: &mut dyn FnMut(&mut [f64])| -> Vec<f64> { let mut o = vec![0.0; n]; f(&mut o); o };
@@ -506,7 +506,7 @@ pub fn sym_cone_battery(
             out.wt_winvt_x = v(&mut |o| c.mul_W(MatrixShape::T, o, &winvtx, 1.0, 0.0));
             out.x_circ_y = v(&mut |o| c.circ_op(o, x, y));
             out.y_circ_x = v(&mut |o| c.circ_op(o, y, x));
-            if y_interior {
+            if y_interior && $div {
                 out.y_inv_circ = v(&mut |o| c.inv_circ_op(o, y, x));
             }
             out.lam_circ_lam = v(&mut |o| c.affine_ds(o, s));
@@ -522,10 +522,11 @@ pub fn sym_cone_battery(
         }};
     }
     match make_cone(cone) {
-        SupportedCone::NonnegativeCone(mut c) => run!(&mut c),
-        SupportedCone::SecondOrderCone(mut c) => run!(&mut c),
+        SupportedCone::NonnegativeCone(mut c) => run!(&mut c, true),
+        SupportedCone::SecondOrderCone(mut c) => run!(&mut c, true),
+        // (the PSD cone does not implement the general Jordan division: it is never needed)
         #[cfg(feature = "sdp")]
-        SupportedCone::PSDTriangleCone(mut c) => run!(&mut c),
+        SupportedCone::PSDTriangleCone(mut c) => run!(&mut c, false),
         _ => {}
     }
     out
